@@ -1085,6 +1085,12 @@ yin_parse_qname(struct lysp_yin_ctx *ctx, enum ly_stmt parent_stmt, struct yin_s
         struct lysp_ext_instance **exts)
 {
     struct lysp_qname *qname, **qnames;
+    const void *parent;
+    enum yin_argument arg_type;
+    LY_ARRAY_COUNT_TYPE index = 0;
+    struct yin_subelement subelems[] = {
+        {LY_STMT_EXTENSION_INSTANCE, &index, 0}
+    };
 
     switch (parent_stmt) {
     case LY_STMT_DEFAULT:
@@ -1093,29 +1099,40 @@ yin_parse_qname(struct lysp_yin_ctx *ctx, enum ly_stmt parent_stmt, struct yin_s
         } else {
             qnames = (struct lysp_qname **)subinfo->dest;
             LY_ARRAY_NEW_RET(ctx->xmlctx->ctx, *qnames, qname, LY_EMEM);
+            index = LY_ARRAY_COUNT(*qnames) - 1;
         }
-        qname->mod = PARSER_CUR_PMOD(ctx);
-        return yin_parse_simple_element(ctx, qname, parent_stmt, &qname->str, YIN_ARG_VALUE, Y_STR_ARG, exts);
+        parent = qname;
+        arg_type = YIN_ARG_VALUE;
+        break;
     case LY_STMT_UNIQUE:
         assert(!(subinfo->flags & YIN_SUBELEM_UNIQUE));
 
         qnames = (struct lysp_qname **)subinfo->dest;
         LY_ARRAY_NEW_RET(ctx->xmlctx->ctx, *qnames, qname, LY_EMEM);
-        qname->mod = PARSER_CUR_PMOD(ctx);
-        return yin_parse_simple_element(ctx, *qnames, parent_stmt, &qname->str, YIN_ARG_TAG, Y_STR_ARG, exts);
+        index = LY_ARRAY_COUNT(*qnames) - 1;
+        parent = *qnames;
+        arg_type = YIN_ARG_TAG;
+        break;
     case LY_STMT_IF_FEATURE:
         assert(!(subinfo->flags & YIN_SUBELEM_UNIQUE));
 
         qnames = (struct lysp_qname **)subinfo->dest;
         LY_ARRAY_NEW_RET(ctx->xmlctx->ctx, *qnames, qname, LY_EMEM);
-        qname->mod = PARSER_CUR_PMOD(ctx);
-        return yin_parse_simple_element(ctx, *qnames, parent_stmt, &qname->str, YIN_ARG_NAME, Y_STR_ARG, exts);
-    default:
+        index = LY_ARRAY_COUNT(*qnames) - 1;
+        parent = *qnames;
+        arg_type = YIN_ARG_NAME;
         break;
+    default:
+        LOGINT(ctx->xmlctx->ctx);
+        return LY_EINT;
     }
+    qname->mod = PARSER_CUR_PMOD(ctx);
 
-    LOGINT(ctx->xmlctx->ctx);
-    return LY_EINT;
+    /* parse the argument and the extension instances, they belong to the statement with this index */
+    LY_CHECK_RET(lyxml_ctx_next(ctx->xmlctx));
+    LY_CHECK_RET(yin_parse_attribute(ctx, arg_type, &qname->str, Y_STR_ARG, parent_stmt));
+
+    return yin_parse_content(ctx, subelems, ly_sizeofarray(subelems), parent, parent_stmt, NULL, exts);
 }
 
 /**
